@@ -446,6 +446,10 @@ func init() {
 		"math.Float64frombits": func(m *Machine, c *frame, fn *ssa.Function, a []value) value { return a[0] },
 		// machine/process identity: fixed
 		"github.com/lugu/qiloop/bus/util.MachineID": func(m *Machine, c *frame, fn *ssa.Function, a []value) value { return mkStr("verif-machine-id") },
+		"github.com/lugu/qiloop/bus/util.NewUnixAddr": func(m *Machine, c *frame, fn *ssa.Function, a []value) value {
+			m.labelCnt["unixaddr"]++
+			return mkStr(fmt.Sprintf("unix:///tmp/verif-sock-%d", m.labelCnt["unixaddr"]))
+		},
 		"github.com/lugu/qiloop/bus/util.ProcessID": func(m *Machine, c *frame, fn *ssa.Function, a []value) value { return mkConst(32, 4242) },
 		// os
 		"os.Getpid":   func(m *Machine, c *frame, fn *ssa.Function, a []value) value { return mkConst(64, 4242) },
